@@ -32,7 +32,7 @@ from simkit.sim import SimCrash
 
 from . import graphsim, storesim
 from .graphsim import NULL, GModel, gen_dag
-from .storesim import MHist, replay_model
+from .graphsim import GMHist, replay_model
 
 PROPERTY = "C21"
 LEVEL = "exploration"
@@ -57,7 +57,7 @@ COMPONENTS = {
     "stub": ["UI"],
 }
 ASSUMPTIONS = [
-    "no ghost left-hand parents (revision numbers are undefined there); ghosts are right-hand parents only and have no ancestry",
+    "ghosts have no ancestry; right-hand ghost parents anywhere; LEFT-HAND ghost parents only on extra 'ghost-mainline' revisions used as requested revisions or tips: their left-hand history (and revno) counts from the ghost's child, an operation asked to move to them may refuse by naming the ghost (GhostRevisionsHaveNoRevno / RevisionNotPresent) where the law asks for a move - but with append-only it MUST refuse when the visible left-hand history lacks the old tip; such requests are not run against bound targets, and uncommit is not run on such tips",
     "the requested revision is present in the source's repository (stop revisions outside the source BRANCH's ancestry are used, absent ones are not)",
     "with history overwrite (and no append-only refusal) the tip becomes the requested revision; tags are exercised, not judged",
     "recorded revision numbers of all branches are correct at the start (they are written by the check from the model)",
@@ -227,7 +227,7 @@ OW_CHOICES = [False, False, False, True, ["history"], ["tags"], [], ["history", 
 
 def generate(rng, tier):
     fmt = rng.choice(storesim.FORMATS + ["2a"])
-    mh = MHist()
+    mh = GMHist()
     n = rng.randint(4, 13)
     specs, lines = gen_dag(
         rng,
@@ -241,6 +241,23 @@ def generate(rng, tier):
         p_ghost=rng.choice([0.0, 0.0, 0.08]),
         nchanges=1,
     )
+    ghostly = []
+    if rng.random() < 0.4:
+        # revisions whose LEFT-HAND parent is a ghost: a merge (ghost, A) on top of an existing
+        # revision A, or an unrelated ghost-rooted line; optionally continued by a child.  Their
+        # left-hand history cannot contain any older tip, yet graph.heads sees (ghost, A) as a
+        # plain descendant of A.
+        for _ in range(rng.choice([1, 1, 2])):
+            k = len(specs) + 1
+            rid = f"g{k}"
+            base = rng.choice(sorted(mh.revs, key=graphsim._natkey))
+            parents = [f"ghost-lh-{rid}"] + ([base] if rng.random() < 0.75 else [])
+            specs.append(storesim.gen_spec(rng, mh, rid, parents, 1_500_000_000 + len(mh.revs) * 10, 1))
+            ghostly.append(rid)
+            if rng.random() < 0.5:
+                k += 1
+                specs.append(storesim.gen_spec(rng, mh, f"g{k}", [rid], 1_500_000_000 + len(mh.revs) * 10, 1))
+                ghostly.append(f"g{k}")
     gm = GModel(mh)
     revs = sorted(mh.revs, key=graphsim._natkey)
     buckets = _pairs_by_relation(gm, revs)
@@ -272,6 +289,9 @@ def generate(rng, tier):
             model.have_t |= gm.ancestry(req)
 
     ncases = rng.randint(3, 8)
+    if ghostly and rng.random() < 0.6:
+        ops.append(["append", "tgt", True])
+        model.append["tgt"] = True
     for _ in range(ncases):
         # environment steps
         r = rng.random()
@@ -294,14 +314,25 @@ def generate(rng, tier):
         want = rng.choice(["equal", "descends-lh", "descends-merged", "descends-merged", "contains", "diverged", "diverged", "any"])
         cands = [b for (a, b) in buckets.get(want, []) if a == t] if want != "any" else revs
         target_rev = rng.choice(cands) if cands else rng.choice(revs)
+        force_ghost = False
+        if ghostly and rng.random() < (0.6 if model.append["tgt"] else 0.15):
+            target_rev = rng.choice(ghostly)
+            # under append-only prefer the operation forms that reach the history check
+            # (tip named by the source branch, or set directly) over an explicit stop_revision,
+            # whose revno lookup stops at the ghost first
+            force_ghost = model.append["tgt"] and not model.bound and rng.random() < 0.8
         r = rng.random()
+        if force_ghost:
+            r = rng.choice([0.1, 0.1, 0.7])
         if r < 0.62:
             kind = rng.choice(["pull", "pull", "push"])
             srcname = rng.choice(["src", "src", "src", "build", "master"])
             if kind == "push" and srcname == "master" and rng.random() < 0.7:
                 srcname = "src"
             a = {"stop": None, "ow": copy.deepcopy(rng.choice(OW_CHOICES)), "fault": None}
-            if srcname == "src" and rng.random() < 0.75:
+            if force_ghost:
+                srcname = "src"
+            if srcname == "src" and (force_ghost or rng.random() < 0.75):
                 ops.append(["retip", target_rev])
                 model.tips["src"] = target_rev
             else:
@@ -338,6 +369,7 @@ def generate(rng, tier):
 
 
 def execute(sim, plan):
+    import vcsgraph.errors as vg_errors
     from breezy import errors, uncommit
 
     storesim.warm()
@@ -368,7 +400,8 @@ def execute(sim, plan):
         urls["tgt"] = url_t + "tgt"
         tb = storesim.make_branch(urls["tgt"], fmt)
         if tips["tgt"] != NULL:
-            tb.pull(build, stop_revision=tips["tgt"].encode(), overwrite=True)
+            tb.fetch(build, tips["tgt"].encode())
+            graphsim.point_branch(tb, gm, tips["tgt"])
     else:
         urls["tgt"] = url + "tgt"
         tb = storesim.make_branch(urls["tgt"], fmt)
@@ -426,6 +459,8 @@ def execute(sim, plan):
             return "diverged"
         if isinstance(e, errors.AppendRevisionsOnlyViolation):
             return "append"
+        if isinstance(e, (errors.GhostRevisionsHaveNoRevno, vg_errors.RevisionNotPresent, vg_errors.GhostRevisionsHaveNoRevno)):
+            return "ghost"
         return "other"
 
     def perform(op):
@@ -486,14 +521,27 @@ def execute(sim, plan):
             deviation("self_deadlock", "none", f"{kind}:bound-target:{what}", f"{op} on a bound target ended in {type(exc).__name__}: {str(exc)[:300]} [state: {state_text()}]")
             exc = None
             res = None
-        if exc is not None:
+        ghost_req = req_of(op) is not None and graphsim.ghost_mainline(mh, req_of(op))
+        if ghost_req:
+            sim.probe("ghost_mainline_request" + ("_append_only" if model.append["tgt"] else "") + ("_must_refuse" if refusal == "append" else ""))
+        if exc is not None and ghost_req and classify(exc) == "ghost":
+            # the requested revision's mainline runs into a ghost: its revision number / left-hand
+            # history cannot be established, a refusal that names the ghost is as good as the
+            # refusal the law asks for, and is allowed where the law asks for none.  Nothing moved.
+            sim.probe("refusal_ghost")
+            pred = dict(pred, tgt=model.tips["tgt"], master=model.tips["master"], who=pred["who"] or "tgt")
+            refusal = "ghost"
+            exc_ok = True
+        else:
+            exc_ok = False
+        if exc is not None and not exc_ok:
             got = classify(exc)
             if refusal is None:
                 sim.fail("refused", ["refused", faultkind, site + ":" + type(exc).__name__], f"{op} raised {type(exc).__name__}: {exc}; the law gives tgt={pred['tgt']} master={pred['master']} without refusal [state: {state_text()}]")
             if refusal != "other" and got not in refusal.split("|"):
                 sim.fail("refusal_kind", ["refusal_kind", faultkind, site + ":" + type(exc).__name__], f"{op} raised {type(exc).__name__}: {exc}; expected refusal '{refusal}' by {pred['who']} [state: {state_text()}]")
             sim.probe("refusal_" + got)
-        elif refusal is not None:
+        elif exc is None and refusal is not None:
             oracle = "append_only" if refusal == "append" else "must_refuse"
             now = {n: info_of(storesim.open_branch(urls[n])) for n in ("tgt", "master")}
             sim.fail(oracle, [oracle, faultkind, site], f"{op} succeeded although {pred['who']} must refuse ({refusal}); now {now} [state: {state_text()}]")
@@ -512,6 +560,14 @@ def execute(sim, plan):
         sim.state_seen((kind, site, refusal))
 
     def before_tip(op):
+        return None
+
+    def req_of(op):
+        if op[0] in ("pull", "push"):
+            r = op[2]["stop"] or model.tips[op[1]]
+            return None if r == NULL else r
+        if op[0] in ("set_lri", "genhist"):
+            return op[1]
         return None
 
     nontrivial = False
@@ -551,8 +607,10 @@ def execute(sim, plan):
             if op[1] not in mh.revs or (separate and op[1] not in model.have_t):
                 continue
         elif kind == "uncommit":
-            if not (1 <= op[1] <= len(gm.lefthand(model.tips["tgt"]))):
-                continue
+            if not (1 <= op[1] <= len(gm.lefthand(model.tips["tgt"]))) or graphsim.ghost_mainline(mh, model.tips["tgt"]):
+                continue  # uncommit walks the mainline down to the ghost: not defined
+        if model.bound and req_of(op) is not None and graphsim.ghost_mainline(mh, req_of(op)):
+            continue  # master and target could refuse independently: kept out of the bound law
         pred = model.predict(op)
         fault = op[2].get("fault") if kind in ("pull", "push") else None
         owtxt = "-" if kind not in ("pull", "push") else ("ow-history" if (op[2]["ow"] is True or (isinstance(op[2]["ow"], list) and "history" in op[2]["ow"])) else "no-ow")
